@@ -112,11 +112,11 @@ type crashEvent struct {
 
 type crashHist struct {
 	key     string
-	input   string           // stdin of child A
+	input   string // stdin of child A
 	events  map[int]crashEvent
-	flushes [][]int          // vids of flush 0,1,…
-	cmdFl   map[int]int      // worker command number (1-based over flush/rotate lines) → flush id, -1 = none
-	kinds   []string         // model step kinds in program order (Go copy of SigModel.Crash.steps, for Gen only)
+	flushes [][]int     // vids of flush 0,1,…
+	cmdFl   map[int]int // worker command number (1-based over flush/rotate lines) → flush id, -1 = none
+	kinds   []string    // model step kinds in program order (Go copy of SigModel.Crash.steps, for Gen only)
 	created bool
 }
 
@@ -359,6 +359,7 @@ func crashPar() int {
 	}
 	return n
 }
+
 var crashRootOnce sync.Once
 var crashRoot string
 
@@ -948,13 +949,16 @@ func execCrash(line string) Result {
 	for i, x := range res {
 		r.Tags = append(r.Tags, "point")
 		if x.ok && x.p.m != m {
-			// cannot happen while the main goroutine's marker sequence is deterministic; keep the property check
+			// the k-th point of THIS run lies in another step window than the k-th point of the dry run (the
+			// column goroutines interleave differently near a window boundary): the property is still checked
+			// on it, but its answer belongs to the neighbouring op line, not to this one
 			r.Tags = append(r.Tags, "point-moved")
+		} else {
+			if _, seen := outs[x.out]; !seen {
+				order = append(order, x.out)
+			}
+			outs[x.out] = append(outs[x.out], ks[i])
 		}
-		if _, seen := outs[x.out]; !seen {
-			order = append(order, x.out)
-		}
-		outs[x.out] = append(outs[x.out], ks[i])
 		for _, pf := range x.fails {
 			if !seenSig[pf.Sig] {
 				seenSig[pf.Sig] = true
@@ -970,7 +974,9 @@ func execCrash(line string) Result {
 		}
 	}
 	r.Nontrivial = nontrivial
-	if len(order) == 1 {
+	if len(order) == 0 {
+		r.Out = "every-point-of-the-window-moved"
+	} else if len(order) == 1 {
 		r.Out = order[0]
 	} else {
 		var parts []string
@@ -1011,7 +1017,8 @@ func genCrash(r *rand.Rand, n int, tier string) []string {
 	var hists [][]string
 	fixed := []string{
 		"1 2 s f 3 s f r",     // two flushes into one segment, rotation (the minimal WriteSfm window is in here)
-		"1 s r 2 3 s f 4 s f", // rotation that first flushes, then two flushes into the next segment
+		"1 s r 2 s f",         // rotation that first flushes the buffer, then a flush into the next segment
+		"1 s r 2 3 s f 4 s f", // … and two flushes into the next segment
 		"1 s f r 2 s f r 3 s", // two rotated segments, unflushed tail
 	}
 	nfixed := len(fixed)
